@@ -836,7 +836,7 @@ func runRetry(e *Env) {
 		}
 		pending = append(pending, rtArrival{sc: sc, rec: rec, token: token, cons: cons, batch: rq.Header.Opcode == cqlspec.OpBatch})
 	}
-	served := map[*node.SConn]bool{} // connections that have carried a request of the workload
+	served := map[*node.SConn]int{} // connections that have carried a request of the workload: step of the first
 	var toClose []*node.SConn        // connections a node decided to close instead of answering
 	// closeConn: the node closes a connection; every request of the workload it has not
 	// answered yet is lost with it
@@ -868,12 +868,17 @@ func runRetry(e *Env) {
 		if n := len(op.atts); n > 0 {
 			prev := op.atts[n-1]
 			for _, c := range cl.SConns() {
-				if c.Host.Addr == prev.host && served[c] && !c.Dead && !c.C.ClientClosed() && !c.C.ServerClosed() {
+				// (a connection that was in the pool before the previous request and is still
+				// open now was there when the driver decided where to go next; one that was
+				// dialled in between - the node had closed the others - proves nothing)
+				if first, ok := served[c]; ok && first < prev.step && c.Host.Addr == prev.host && !c.Dead && !c.C.ClientClosed() && !c.C.ServerClosed() {
 					att.prevUsable = true
 				}
 			}
 		}
-		served[sc] = true
+		if _, ok := served[sc]; !ok {
+			served[sc] = rec.Step
+		}
 		// overlap: each execution of a query is sequential, so the number of requests of
 		// one query that are certainly still awaited bounds the number of executions
 		inflight := 0
